@@ -147,6 +147,13 @@ def verify_function(qualname, opts=None):
         for k in con.loops:
             if k < 100 and k >= len(source.loops_of(fn)):
                 raise SpecInapplicable(f"loop spec #{k} but {con.short} has {len(source.loops_of(fn))} loops")
+        # statement postconditions: (statement text, occurrence) -> lambda v, b, o: [(label, formula)]
+        eng.stmt_posts = {}
+        for (text, occ), post in (getattr(con, "stmt_post", None) or {}).items():
+            found = sorted((n for n in ast.walk(fn) if isinstance(n, ast.stmt) and ast.unparse(n) == text), key=lambda n: (n.lineno, n.col_offset))
+            if occ >= len(found):
+                raise SpecInapplicable(f"statement postcondition: no occurrence #{occ} of '{text.splitlines()[0]}...' in {con.short}")
+            eng.stmt_posts[id(found[occ])] = (f"{text.splitlines()[0][:30]}#{occ}", post)
         for extra in getattr(con, "inlined", ()):  # generators inlined into this function
             emi, efn = source.find_function(extra[0])
             for i, (node, fp) in enumerate(source.loops_of(efn)):
@@ -215,6 +222,9 @@ def verify_function(qualname, opts=None):
                 if con.ensures is not None:
                     for label, f in conj(con.ensures(o, n, rv)):
                         eng.oblige(s, f"ensures[{label}]", "post", f, fn.lineno)
+                if getattr(con, "zero_based", None) is not None:
+                    for zi, (cond, lv) in enumerate(con.zero_based(o, n, rv)):
+                        eng.oblige(s, f"ensures[zero-based#{zi}]", "post", z3.Implies(cond, lv.lo == 0), fn.lineno)
                 _frame_obligations(eng, con, o, old, s, fn.lineno)
             elif oc.kind == "raise":
                 cond = con.raises.get(oc.val)
@@ -238,11 +248,10 @@ def verify_function(qualname, opts=None):
                         "kind": ob.kind,
                         "line": ob.line,
                         "status": "pending",
-                        "smt2": smt.export_query(ob.pc, ob.goal, ob.axioms),
-                        "relaxed": smt.export_relaxed(ob.pc, ob.goal) if ob.axioms is None else None,
-                        "noseq": smt.export_noseq(ob.pc, ob.goal, ob.axioms),
-                        "linear": smt.export_linear(ob.pc, ob.goal, ob.axioms),
-                        "sliced": smt.export_sliced(ob.pc, ob.goal, ob.axioms),
+                        **dict(zip(("smt2", "relaxed"), smt.export_bundle(ob.pc, ob.goal, ob.axioms))),
+                        "noseq": None,
+                        "linear": None,
+                        "sliced": None,
                     }
                 )
             rep.status = "PENDING"
@@ -259,7 +268,7 @@ def verify_function(qualname, opts=None):
         rep.reason = f"not found: {e}"
     except Exception as e:  # engine crash: checker error, never a violation
         rep.status = "ERROR"
-        rep.reason = f"{type(e).__name__}: {e}\n{traceback.format_exc(limit=8)}"
+        rep.reason = f"{type(e).__name__}: {e}\n{traceback.format_exc(limit=-12)}"
     finally:
         if saved_axioms is not None:
             smt.AXIOMS = saved_axioms
@@ -320,6 +329,12 @@ def _frame_obligations(eng, con, o, old, s, line):
 
                 k = sort_key(loc[1])
                 for nm in (f"LA.{k}", f"LLO.{k}", f"LHI.{k}"):
+                    allowed.setdefault(nm, []).append(loc[2])
+            elif loc[0] == "list-append":
+                from .values import sort_key
+
+                k = sort_key(loc[1])
+                for nm in (f"LA.{k}", f"LHI.{k}"):
                     allowed.setdefault(nm, []).append(loc[2])
             elif loc[0] == "map":
                 allowed[loc[1]] = None
